@@ -3,6 +3,7 @@ import LoguruModel.Parse.Trace
 import LoguruModel.Parse.Cont
 import LoguruModel.Parse.GenProto
 import LoguruModel.Parse.With
+import LoguruModel.Parse.HeadStable
 /-
 C20 – `logger.parse()` is independent of the chunk size and equals a whole-text regex scan.
 Only the property theorems and their non-vacuity examples live here.  Model: Parse/Model.lean
@@ -629,6 +630,20 @@ theorem leaving_with_opener_is_closeEv {ρ : Type} (own : Bool) (openErr : Optio
   rw [opener_exit own openErr exc hx w]
   simp [closeEv, hiw]
 
+/-- **The event trace with the `with` statement spelled out.**  `parseAutoW` is the body of `parse`
+in which `with opener() as fileobj:` is what Python makes of it – `cm = opener()`, `cm.__enter__()`,
+and on every exit of the block `cm.__exit__(…)` through contextlib's generator-based protocol over
+the two opener automata, the exception re-raised unless `__exit__` says otherwise.  Driven by a
+consumer it produces exactly `parseTrace`: `closeEv` is not an ingredient of this derivation, only a
+name for its result.  (Assumed: a `with` statement calls `__exit__` once on every exit of its body;
+`open(file).__exit__` closes the file and does not suppress.) -/
+theorem event_trace_with_statement_spelled_out (s : Src α) (cast : CastArgE κ ν) (vv : ValView ν)
+    (scan : Scanner α (List (κ × ν))) (limit : Option Nat) (fuel : Nat)
+    (hf : (findIterActs s.kindOk scan s.chunk s.reads).length < fuel) :
+    drive (Gen.genObj .generator (parseAutoW s cast vv scan)) fuel limit (.unstarted .start) []
+      = parseTrace s cast vv scan limit :=
+  driveW_eq_parseTrace s cast vv scan limit fuel hf
+
 /-- a cast dict (distinct keys) converts the value of each listed key that is present exactly once
 and leaves every other entry alone – for every value, `None` and `''` included -/
 theorem cast_dict_converts_exactly_listed_keys (d : List (κ × (ν → ν))) (hd : (d.map (·.1)).Nodup)
@@ -687,6 +702,31 @@ theorem line_matcher_is_line_scanner [DecidableEq α] (nl : α) :
   refine ⟨finditer_lineMatcher nl, fun t u => ?_⟩
   rw [finditer_lineMatcher nl]
   exact (lineScanner_local nl).prefixStable t u
+
+/-- Round 5: for an engine without look-behind the whole side condition reduces to its HEAD instance
+`HeadStable m`: "the first of at least two matches of a text is the first match of every extension
+of the text" (a first match is final once a second one has been seen).  (R) is a theorem for such
+engines, and full prefix stability follows from the head instance by induction along the matches. -/
+theorem anchored_matcher_head_stability_suffices (m : Matcher α γ) (h1 : HeadStable m)
+    (reads : List (List α)) :
+    findIter (finditer m) reads = ((finditer m (readable reads).flatten).map (·.val), none) :=
+  find_iter_eq_scan _ (finditer_local_of_headStable m h1) reads
+
+/-- head stability is not stronger than (P): for anchored matchers the two are equivalent -/
+theorem head_stability_iff_prefix_stability (m : Matcher α γ) :
+    HeadStable m ↔ ∀ t u, (finditer m t).dropLast <+: finditer m (t ++ u) := by
+  constructor
+  · intro h1 t u
+    exact prefixStable_of_headStable m h1 t.length t u (Nat.le_refl _)
+  · intro hP t u a b rest hS
+    have := hP t u
+    rw [hS, List.dropLast_cons_cons] at this
+    obtain ⟨tl, htl⟩ := this
+    exact ⟨(b :: rest).dropLast ++ tl, by rw [← htl]; simp⟩
+
+/-- non-vacuity: the anchored line matcher is head stable -/
+theorem line_matcher_head_stable [DecidableEq α] (nl : α) : HeadStable (lineMatcher nl) :=
+  (head_stability_iff_prefix_stability _).mpr (line_matcher_is_line_scanner nl).2
 
 -- a match straddling every boundary (chunk size 1), a last line without terminator, a multi-byte char
 example : findIter (lineScanner '\n') (chunksOf 1 "ab\n\né😀".toList)
@@ -757,6 +797,10 @@ example : drive (Gen.genObj .generator (parseAuto { file := .pathStr, chunk := 5
       (.dict [(0, fun v => .ok ('#' :: v))]) vvStr gdScan)) 20 (some 3) (.unstarted .start) []
     = [opened, read, read, yielded [(0, "#a\n".toList)], yielded [(0, "#b\n".toList)], read,
        yielded [(0, "#c\n".toList)], closed] := by decide
+-- the body with the `with` statement spelled out, a converter raising on the second record
+example : drive (Gen.genObj .generator (parseAutoW { file := .pathLike, chunk := 5, reads := rd ["a\nb\nc", "\nd\ne"] }
+      (.dict [(0, convB)]) vvStr gdScan)) 20 none (.unstarted .start) []
+    = [opened, read, read, yielded [(0, "#a\n".toList)], closed, raised .valueError] := by decide
 -- the path opener through contextlib's protocol: enter, then GeneratorExit in flight at the exit
 example : (cmExit (openerAuto Nat true none) (.suspended .inside) (some Gen.genExit) [.opened, .read]).2.2
     = [.opened, .read, .closed] := by decide
